@@ -290,7 +290,7 @@ func runCheck(id, tier string, ignoreKnown, verbose bool) int {
 	if coverFail > 0 || engineErrors > 0 {
 		exit = 2
 	}
-	if fl, ok := floor[id]; ok && nProof < fl {
+	if fl, ok := floor[id]; ok && nProof < fl && len(violations) == 0 {
 		fmt.Printf("ERROR: %d obligations generated for %s, floor is %d (contracts lost?)\n", nProof, id, fl)
 		exit = 2
 	}
@@ -331,9 +331,12 @@ func runCheck(id, tier string, ignoreKnown, verbose bool) int {
 		"wall_s":      time.Since(t0).Seconds(),
 		"violations":  len(violations),
 	}
-	os.MkdirAll(filepath.Join(vd, "evidence"), 0o755)
-	b, _ := json.MarshalIndent(ev, "", " ")
-	os.WriteFile(filepath.Join(vd, "evidence", id+".json"), b, 0o644)
+	if os.Getenv("VERIF_NOEVIDENCE") == "" {
+		// (selftest runs on scratch copies must not overwrite the evidence of the real tree)
+		os.MkdirAll(filepath.Join(vd, "evidence"), 0o755)
+		b, _ := json.MarshalIndent(ev, "", " ")
+		os.WriteFile(filepath.Join(vd, "evidence", id+".json"), b, 0o644)
+	}
 	fmt.Printf("%s: %d obligations, %d discharged, %d known findings, %d violations, %d covers (%d vacuous), %.1fs\n", id, nProof, discharged, len(knownSeen), len(violations), covers, coverFail, time.Since(t0).Seconds())
 	return exit
 }
